@@ -14,6 +14,12 @@ import (
 // the parser accepts and the checker rejects is either outside what the theorem covers (a gap in the
 // checker) or ill-typed code that the parser let through.
 
+// tcBuiltins: the built-ins that Spec/WellTyped.lean builtinSig types.
+var tcBuiltins = map[string]bool{"len": true, "typeof": true, "has": true, "del": true, "str2bool": true, "sprint": true, "join": true,
+	"startswith": true, "endswith": true, "index": true, "exit": true, "panic": true, "sleep": true, "cls": true, "read": true,
+	"abs": true, "floor": true, "ceil": true, "round": true, "log": true, "sqrt": true, "sin": true, "cos": true,
+	"min": true, "max": true, "pow": true, "atan2": true, "upper": true, "lower": true, "trim": true, "replace": true, "str2num": true}
+
 // tcFragment reports whether a program uses only what Spec/WellTyped.lean types, and if not, why.
 func tcFragment(prog *parser.Program) (bool, string) {
 	userFuncs := map[string]bool{}
@@ -43,7 +49,7 @@ func tcFragment(prog *parser.Program) (bool, string) {
 			}
 			walkList(n.Body.Statements)
 		case *parser.FuncCall:
-			if !userFuncs[n.Name] && !(n.Name == "print" && stmtCall) {
+			if !userFuncs[n.Name] && !(n.Name == "print" && stmtCall) && !tcBuiltins[n.Name] {
 				reason = "builtin " + n.Name
 				return
 			}
@@ -191,7 +197,7 @@ func c02TypeCheck(r *Report, d *Driver, srcs []string) (asked, inFrag, okN int) 
 // TcProbe: development aid.
 func TcProbe(d *Driver, n int) {
 	rng := Rng()
-	o := GenOpts{Funcs: true, Any: true, Maps: true, Strings: true, NonAscii: true, Special: true}
+	o := GenOpts{Funcs: true, Any: true, Maps: true, Strings: true, NonAscii: true, Special: true, Builtins: true}
 	stats := map[string]int{}
 	shown := 0
 	for i := 0; i < n; i++ {
@@ -202,7 +208,7 @@ func TcProbe(d *Driver, n int) {
 		case v == "":
 			stats["not asked: "+why]++
 		case !in:
-			stats["outside: "+strings.SplitN(why, " ", 2)[0]]++
+			stats["outside: "+why]++
 		case v == "ok":
 			stats["in fragment, ok"]++
 		default:
@@ -238,6 +244,9 @@ func tcHandWritten() []string {
 		"func f:num a:num b:string c:bool d:[]num e:{}num g:any\n    if c\n        return a + d[0] + e.k + (len2 b)\n    end\n    print g\n    return 0\nend\nfunc len2:num s:string\n    n := 0\n    for range s\n        n = n + 1\n    end\n    return n\nend\nprint (f 1 \"ab\" true [2] {k:3} 4)\n",
 		"func rec:num n:num\n    while true\n        if n > 3\n            return n\n        end\n        n = n + 1\n    end\n    return 0\nend\nprint (rec 0)\n",
 		"e := []\nf := {}\nprint e f\n",
+		"s := \"Hello, Wörld\"\nn := (len s) + (len [1 2]) + (len {a:1})\nu := (upper s) + (lower s) + (trim s \"H\") + (replace s \"l\" \"L\")\nb := (startswith s \"He\") and (endswith s \"d\") or (index s \"W\") > 3\nprint n u b (typeof n) (sprint n u) (join [1 2] \"-\")\n",
+		"x := str2num \"12\"\ny := str2num \"zz\"\nb := str2bool \"true\"\nprint x y b err errmsg\nm := {a:1}\nif has m \"a\"\n    del m \"a\"\nend\nprint m (abs -2) (floor 2.5) (ceil 2.5) (round 2.5) (sqrt 4) (min 1 2) (max 1 2) (pow 2 3) (sin 0) (cos 0) (log 1) (atan2 1 1)\n",
+		"cls\nsleep 0\nl := read\nprint l\nif l == \"x\"\n    panic \"boom\"\nend\nexit 3\n",
 		"x := [] + [1]\ny := [[]] + [[2]]\nprint x y [] {}\n",
 	}
 }
